@@ -584,7 +584,9 @@ func interpret(k reflect.Kind, leaf any) (any, bool) {
 			return nil, false
 		}
 		if k == reflect.Float32 {
-			if math.Abs(f) > math.MaxFloat32 && !math.IsInf(f, 0) {
+			// a text is a float32 value iff the standard parser takes it with 32 bits (texts just
+			// above MaxFloat32 round down to it)
+			if _, err32 := strconv.ParseFloat(text, 32); err32 != nil {
 				return nil, false
 			}
 			return float64(float32(f)), true
